@@ -132,6 +132,15 @@ def run_schedule(main_factory, choices, horizon=20000):
             has_ready = bool(loop._ready)
             n_opts = (1 if has_ready else 0) + len(sched.pending)
             if n_opts == 0:
+                # the implementation may have handed work to a thread (run_in_executor): its completion arrives through
+                # call_soon_threadsafe; wait for it (bounded) before calling the situation a deadlock
+                import time as _time
+
+                t_end = _time.time() + 3.0
+                while not loop._ready and _time.time() < t_end:
+                    _time.sleep(0.0005)
+                if loop._ready:
+                    continue
                 raise ScheduleError("deadlock: nothing ready, nothing pending, main task not done")
             if k < len(choices):
                 c = choices[k]
